@@ -177,8 +177,8 @@ def c12(tier_):
         cx = replay.Concrete(rng, apij)
         execs += replay.build_executions(edges, walks, cx, 'exc', sweep_every=60, rng=rng)
         st += s; tr += t; uniq += nu
-    for _ in range(20 if tier_ == 'quick' else 200):
-        execs.append(gen.gen_registry_random(rng, steps=120 if tier_ == 'quick' else 300))
+    for i in range(20 if tier_ == 'quick' else 200):
+        execs.append(gen.gen_registry_random(rng, steps=120 if tier_ == 'quick' else 300, apis=('cxx', 'c') if i % 2 else ('cxx',)))
     return run_trace_check('C12', tier_, execs, suite=True, relax=('live', 'memo'), level='model_checking',
         rule='every transition of the bounded registry model (2 handles; 2 precisions x 1 handle; quick: reduced alphabet Lite, thorough: full alphabet) replayed on the real library with a concretisation drawn by seed; thorough: additionally the 3-handle Lite instance, model-checked in full by TLC, a random 1 in 6 of its transitions replayed; plus random long histories over 4 similar handles and both precisions; distinct = distinct (call, arguments) shapes executed',
         assumptions=COMMON_ASSUME, mc=dict(states=st, transitions=tr, distinct_transitions_replayed=uniq, exhaustive=True))
@@ -264,7 +264,7 @@ def c16(tier_):
         s, t, edges, _ = replay.explore(cfg, 'exc')
         walks, nu = replay.cover_walks(edges)
         cx = replay.Concrete(rng, apij)
-        execs += replay.build_executions(edges, walks, cx, 'exc', sweep_every=40, rng=rng, sweep_after_fatal=0.25)
+        execs += replay.build_executions(edges, walks, cx, 'exc', sweep_every=40, rng=rng, sweep_after_fatal=0.25, apis=('cxx', 'c'))      # double-precision calls through the C symbol or the template, at random
         st += s; tr += t; uniq += nu
     return run_trace_check('C16', tier_, execs, suite=True, relax=('live', 'memo'), level='model_checking',
         rule='every transition of the bounded model in the exit() build (each fatal transition in its own process: exit status, diagnostics and the absence of any later effect are observed) and in the exception build (caught int, then sweeps, then the walk continues in the same process). distinct = distinct (call, arguments) shapes',
@@ -516,6 +516,8 @@ def c13(tier_):
         strings.append((n[:-1], False, 'prefix'))
         k = rng.randrange(len(n))
         strings.append((n[:k] + rng.choice('\r\n\x01\x10\x19\x1f') + n[k:], False, 'control-character'))
+        # a NUL inside the std::string (the C++ interface takes the whole string, not its C prefix)
+        strings.append((n + '\x00' + rng.choice(['', '_2d', 'x', n]), False, 'embedded-nul'))
     rng.shuffle(strings)
     execs = []
     chunk = 400
